@@ -293,6 +293,7 @@ func checkC15(c *checkCtx) {
 		"surrogate code points and U+FFFD are not generated as class members (not encodable / indistinguishable from decoding errors)",
 	}
 	c.coqObligations()
+	checkEscapes(c) // escape decoding: parser.go unescape vs the model the C15_escape_* theorems are about
 
 	// ---- (a) range algebra correspondence ----
 	var cases []rangeReq
